@@ -213,7 +213,13 @@ Fixpoint typed_b (Γ : gmap string sty) (sh : option string) (rs : gset string) 
     | None => false
     end
   | FFwd to from d => prov_b sh rs to && client_b Γ sh from s
-  | FSplit _ _ _ _ => false
+  | FSplit x y from k =>
+    binder_b x && binder_b y && negb (String.eqb (ident x) (ident y)) &&
+    negb (bool_decide (sh = Some (ident x))) && negb (bool_decide (sh = Some (ident y))) &&
+    match client_lookup Γ sh from with
+    | Some T => typed_b (<[ident y := T]> (<[ident x := T]> Γ)) sh (rs ∖ {[ident x]} ∖ {[ident y]}) s k
+    | None => false
+    end
   | FCall fn args _ =>
     match get_function F fn (length args) with
     | Some fd =>
@@ -357,7 +363,13 @@ Proof.
     eapply T_Wait; eauto using whdb_sound, client_lookup_sound.
   - (* FFwd *) intros to from d Γ sh rs s. simpl. intros H. bsplit.
     eapply T_Fwd; eauto using prov_b_sound, client_b_sound.
-  - (* FSplit *) intros; simpl in *; discriminate.
+  - (* FSplit *) intros x y from k IH Γ sh rs s. simpl. intros H. bsplit.
+    destruct (client_lookup Γ sh from) as [T|] eqn:Ec; [|discriminate].
+    assert (Hne : ident x <> ident y).
+    { intros E. rewrite E, String.eqb_refl in *. discriminate. }
+    eapply T_Split; eauto using binder_b_sound, client_lookup_sound.
+    + match goal with Hx : negb (bool_decide (sh = Some (ident x))) = true |- _ => nb Hx end.
+    + match goal with Hx : negb (bool_decide (sh = Some (ident y))) = true |- _ => nb Hx end.
   - (* FCall *) intros fn args pt Γ sh rs s. simpl.
     destruct (get_function F fn (length args)) as [fd|] eqn:Eg; [|discriminate].
     destruct (fn_type fd) as [tf|] eqn:Et; [|discriminate]. intros H. bsplit.
